@@ -654,7 +654,14 @@ def judge_cmd(viol, case, exp, where, argv, rc, so, se, marks, runs):
                                   % (where, ' '.join(argv), e['c']['name'], e['why'], e['to_load'], rc, marks),
                              shape='c18:result-not-a-task-accepted:run-time', case=desc))
         return
-    want = sorted(m for e in reached for m in e['execd'])
+    # `doit run sub` selects the task / group called sub: a sub-task the creator yields under ANOTHER basename (og:x) belongs
+    # to that other group and is not part of the selection (markers are the task names).  False alarm at quick seed 4.
+    def selected_marks(e):
+        if sel_subject and e is subj:
+            w = argv[-1]
+            return [m for m in e['execd'] if m == w or m.startswith(w + ':')]
+        return e['execd']
+    want = sorted(m for e in reached for m in selected_marks(e))
     if rc != 0 or sorted(marks) != want:
         viol.append(dict(what='%s `doit %s`: valid creator results, expected exit 0 and the execution of %s; got exit %s, executed %s: %s'
                               % (where, ' '.join(argv), want, rc, sorted(marks), (se or so)[-200:]),
